@@ -160,6 +160,7 @@ func (h *c19) payloadOf(c IClaims, fresh string) []byte {
 	if ndSymbolic() {
 		b := ndBytes(fresh)
 		ndAssume(len(b) > 0)
+		verifNoTag(b)
 		return b
 	}
 	return verifRealCBOR(c)
@@ -169,6 +170,7 @@ func (h *c19) payloadOfInvalid() []byte {
 	if ndSymbolic() {
 		b := ndBytes("payload.invalid")
 		ndAssume(len(b) > 0)
+		verifNoTag(b)
 		return b
 	}
 	return verifRealCBOR(h.gz.c)
@@ -239,6 +241,7 @@ func (h *c19) decode(t int) {
 		if ndSymbolic() {
 			p = ndBytes("payload.undecodable")
 			ndAssume(len(p) > 0)
+			verifNoTag(p)
 			verifScript(p, nil)
 		} else {
 			p = []byte{0x01}
